@@ -30,7 +30,7 @@ assert_in_tree(filing)
 PID = "C29"
 RULE = ("cases: flag combination temp x clean x filed x extensioned x reuse x clear (all 64, enumerated) x relative name x "
         "relative base (plain, nested, dotted: a.b, .hidden, ./x, x/../y, ../x, ../../x, ../../../x) x optional pre-existing "
-        "file / directory at the target path x 0-2 reopen(clear, reuse, clean) calls x final close(clear); non-trivial = name "
+        "file / directory at the target path x 0-2 reopen(clear, reuse, clean[, temp]) calls (temp may switch the Filer between temporary and persistent) x final close(clear); non-trivial = name "
         "or base has a dotted segment ('.', '..' or a dot inside a segment) or clean meets a pre-existing path; distinct = "
         "canonical hash of the case")
 ASSUMPTIONS = [
@@ -121,6 +121,8 @@ def run_case(case):
     temp = case["temp"]
     disc = "(name or base with '..')" if has_dotdot(case) else "(no '..')"
     regions = ["tmp"] if temp else ["head", "alt"]
+    if any(ro.get("temp") is not None and bool(ro["temp"]) != temp for ro in case.get("reopens", [])):
+        regions = ["tmp", "head", "alt"]      # the Filer is switched between temporary and persistent
     labels = ["%s%s%s%s" % ("T" if temp else "-", "C" if case["clean"] else "-", "F" if case["filed"] else "-",
                             "X" if case["ext"] else "-")]
     if has_dotdot(case):
@@ -225,9 +227,15 @@ def run_case(case):
             except OSError:
                 pass
             prev = snapshot()
+        live_temp = sorted(own_temp)[-1] if (temp and own_temp) else None   # temp dir made by the latest open, if any
         for ro in case.get("reopens", []):
+            old_path_rel = os.path.relpath(filer.path, BOX) if filer.path else None
             try:
-                filer.reopen(clear=ro["clear"], reuse=ro["reuse"], clean=ro["clean"])
+                if ro.get("temp") is None:
+                    filer.reopen(clear=ro["clear"], reuse=ro["reuse"], clean=ro["clean"])
+                else:
+                    filer.reopen(temp=ro["temp"], clear=ro["clear"], reuse=ro["reuse"], clean=ro["clean"])
+                    labels.append("reopen-temp-switch" if bool(ro["temp"]) != temp else "reopen-temp-same")
                 rej = False
             except EscapeAttempt as ex:
                 r.fail("C29/escape-attempt-outside-sandbox" + disc, "reopen: %s on %r (blocked by the harness)" % (ex.op, ex.path))
@@ -240,10 +248,31 @@ def run_case(case):
                 rej = False
                 labels.append("reopen-oserror:" + type(ex).__name__)
             cur = snapshot()
-            created, _d, _m = judge_call("reopen(%r)" % (ro,), prev, cur, rej)
+            created, deleted_ro, modified_ro = judge_call("reopen(%r)" % (ro,), prev, cur, rej)
+            new_temp = None
             for p in created:
                 if os.path.dirname(p) == "tmp" and os.path.basename(p).startswith("hio_"):
                     own_temp.add(p)
+                    new_temp = p
+            # what a reopen may remove: the old resource (with clear), the old temporary directory, and - clean only -
+            # whatever sat at / next to the new target path
+            new_path_rel = os.path.relpath(filer.path, BOX) if filer.path else None
+            allowed = [x for x in (old_path_rel, live_temp) if x]
+            if ro["clean"] and new_path_rel:
+                allowed.append(os.path.dirname(new_path_rel))
+            if old_path_rel and live_temp and under(old_path_rel, live_temp):
+                pass
+            bad = [p for p in deleted_ro + modified_ro if not any(under(p, a) for a in allowed)]
+            if bad and not rej:
+                r.fail("C29/reopen-removed-outside-own-path" + disc, "reopen(%r) of path %r (new path %r) removed %r" % (
+                    ro, old_path_rel, new_path_rel, bad[:6]))
+            if ro["clear"] and not rej and live_temp and live_temp in cur and all_clear:
+                r.fail("C29/temp-left-behind", "reopen(%r): the temporary directory %r of the cleared resource remains" % (
+                    ro, live_temp))
+            if new_temp is not None:
+                live_temp = new_temp
+            elif not rej and (filer.path is None or not under(os.path.relpath(filer.path, BOX), "tmp")):
+                live_temp = None
             if not ro["clear"]:
                 all_clear = False
             prev = cur
@@ -267,7 +296,7 @@ def run_case(case):
         created, deleted, modified = judge_call("close(clear=%r)" % case["clear"], prev, s2, crej)
         if created:
             r.fail("C29/close-created", "close created %r" % (created[:5],))
-        own = [path_rel] + (sorted(own_temp) if temp else [])
+        own = [path_rel] + (sorted(own_temp) if (temp or filer.temp) else [])
         bad = [p for p in deleted + modified if not any(under(p, o) for o in own)]
         if bad:
             r.fail("C29/close-removed-outside-own-path" + disc, "close(clear=%r) of path %r removed %r" % (
@@ -276,7 +305,7 @@ def run_case(case):
             r.fail("C29/close-without-clear-removed", "deleted=%r modified=%r" % (deleted[:5], modified[:5]))
         if case["clear"] and existed and path_rel not in s0 and os.path.lexists(filer.path):
             r.fail("C29/clear-left-path", "path %r still exists after close(clear=True)" % path_rel)
-        if temp and case["clear"] and all_clear:
+        if (temp or filer.temp) and case["clear"] and all_clear:
             left = [p for p in sorted(own_temp) if p in s2]
             if left:
                 r.fail("C29/temp-left-behind", "temporary directories made by the Filer remain after close(clear=True): %r "
@@ -326,7 +355,8 @@ def _strategy():
     seg = st.sampled_from(["a", "b", "main", "a.b", ".hidden", "..", ".", "x.text", "c.d.e", "z", "..", "a b", "hio", "clean"])
     rel = st.one_of(st.sampled_from(NAMES), st.lists(seg, min_size=1, max_size=4).map("/".join))
     base = st.one_of(st.sampled_from(BASES), st.lists(seg, min_size=0, max_size=3).map("/".join))
-    ro = st.fixed_dictionaries({"clear": st.booleans(), "reuse": st.booleans(), "clean": st.booleans()})
+    ro = st.fixed_dictionaries({"clear": st.booleans(), "reuse": st.booleans(), "clean": st.booleans(),
+                                "temp": st.sampled_from([None, None, True, False])})
     return st.builds(_mk, st.booleans(), st.booleans(), st.booleans(), st.booleans(), st.booleans(), st.booleans(),
                      rel, base, st.sampled_from(["none", "none", "file", "dir", "dirfull"]),
                      st.lists(ro, max_size=2), st.sampled_from([False, False, False, True]),
